@@ -129,6 +129,9 @@ type Sched struct {
 
 	// per-site preemption counters (for evidence: context switches by site)
 	SwSite [MaxSites]int32
+	// SiteHist: steps per site over the life of the process (a development aid for hunting a
+	// source of nondeterminism: two processes, same tape, diff the histograms)
+	SiteHist [MaxSites]int32
 
 	// SerialCount: when >=0 we are in a serial measuring run: count steps only.
 	Counting      bool
@@ -422,6 +425,9 @@ func Yield(site int) {
 	s.Steps++
 	s.StepsByClass[cls]++
 	s.StepsTask[self]++
+	if site >= 0 && site < MaxSites {
+		s.SiteHist[site]++
+	}
 	if cls == ClassS {
 		s.IHash = (s.IHash ^ uint64(self*65536+site)) * 1099511628211
 	}
